@@ -232,10 +232,52 @@ Definition run_label (root : list byte) (s : cstate) (l : label) : cstate :=
       end
   end.
 
-Definition cinit (root : list byte) : cstate :=
-  mkC (init_world root) (hinit (init_world root) root) [] [].
+(* ------------------------------------------------------------------ canonical node ids *)
+(** Node ids are opaque: after every label the heap is garbage-collected and its nodes renumbered in the
+    order of a depth-first walk from the root, then from the nodes the directMap points to, then from the
+    nodes destroy threads hold.  Finished destroy threads are dropped.  States thus have ONE representation,
+    which makes the reachable set of a bounded alphabet finite and comparable by structural equality. *)
+Fixpoint visit (fuel : nat) (h : heap) (id : nat) (acc : list nat) : list nat :=
+  if existsb (Nat.eqb id) acc then acc
+  else match fuel with
+       | O => acc
+       | S f => match hget h id with
+                | Some n => fold_left (fun a '(_, cid) => visit f h cid a) (h_subs n) (acc ++ [id])
+                | None => acc ++ [id]
+                end
+       end.
 
-Definition run_labels (root : list byte) (ls : list label) : cstate := fold_left (run_label root) ls (cinit root).
+Fixpoint index_nat (x : nat) (l : list nat) (i : nat) : nat :=
+  match l with [] => 0%nat | y :: r => if Nat.eqb x y then i else index_nat x r (S i) end.
+
+Definition thread_ids (t : dthread) : list nat :=
+  map fst (d_levels t) ++ match d_top t with Some i => [i] | None => [] end.
+
+Definition cnorm (s : cstate) : cstate :=
+  let h := c_heap s in
+  let threads := filter (fun e => negb (d_done (snd e))) (c_threads s) in
+  let roots := hp_root h :: map snd (hp_dm h) ++ flat_map (fun e => thread_ids (snd e)) threads in
+  let order := fold_left (fun a id => visit 8 h id a) roots [] in
+  let rn (id : nat) := index_nat id order 1 in
+  let nodes := flat_map (fun id => match hget h id with
+                                   | Some n => [(rn id, mkH (h_item n) (h_path n) (h_cat n)
+                                                           (map (fun '(nm, c) => (nm, rn c)) (h_subs n)) (h_files n))]
+                                   | None => []
+                                   end) order in
+  let h' := mkHeap nodes (rn (hp_root h)) (map (fun '(k, i) => (k, rn i)) (hp_dm h)) (S (length order)) in
+  let threads' := map (fun '(tid, t) => (tid, mkD (map (fun '(i, c) => (rn i, c)) (d_levels t))
+                                                  (option_map rn (d_top t)) (d_deleted t) (d_final t) (d_done t))) threads in
+  mkC (c_world s) h' threads' (c_pending s).
+
+(** the trace of system calls is not part of the comparable state *)
+Definition cforget (s : cstate) : cstate := mkC (mkW (wfs (c_world s)) []) (c_heap s) (c_threads s) (c_pending s).
+
+Definition cinit (root : list byte) : cstate :=
+  cnorm (mkC (init_world root) (hinit (init_world root) root) [] []).
+
+Definition nstep (root : list byte) (s : cstate) (l : label) : cstate := cnorm (run_label root s l).
+
+Definition run_labels (root : list byte) (ls : list label) : cstate := fold_left (nstep root) ls (cinit root).
 
 Definition all_done (s : cstate) : bool :=
   forallb (fun e => d_done (snd e)) (c_threads s) && match c_pending s with [] => true | _ => false end.
